@@ -4,4 +4,5 @@ import Petl.Fields
 import Petl.Sort
 import Petl.Join
 import Petl.HashJoin
+import Petl.SetOps
 import Petl.Ops
